@@ -19,7 +19,8 @@ def gen_cases(seed, tier):
     cases = []
     for _ in range(n):
         spec = G.gen_network(rng, kinds=("massaction", "massaction", "massaction") + tuple(G.HILL) + ("general",), nrx=(1, 4), nsp=(1, 4), max_order=rng.choice([2, 3, 5]),
-                             general_pool=["kg*%s", "kg*%s*%s", "kg*%s/(1+%s)", "kg*%s^2/(Kg+%s^2)", "kg*exp(-%s/Kg)"])
+                             general_pool=["kg*%s", "kg*%s*%s", "kg*%s/(1+%s)", "kg*%s^2/(Kg+%s^2)", "kg*exp(-%s/Kg)",
+                                           "kg*exp(-%s^2/Kg)", "kg*1.1^%s^0.5", "kg*(2 - -%s^2/(1+%s^2))"])   # unary minus on a power, power towers: grammar-sensitive (S3_C14)
         pts = [{s: float(rng.randint(0, 7)) for s in spec["x0"]} for _ in range(4)]
         cases.append({"spec": spec, "points": pts})
     return cases
